@@ -13,11 +13,24 @@ use std::sync::atomic::{AtomicI64, AtomicU64, Ordering};
 use std::sync::{Arc, Mutex};
 use std::time::Duration;
 
-const D_MS: u64 = 8_000;
 const EPS: u64 = 1;
-/// advance alphabet in ms
-const DELTAS: [u64; 8] = [D_MS / 4, D_MS / 2, D_MS - EPS, D_MS, D_MS + EPS, 2 * D_MS - EPS, 2 * D_MS, 4 * D_MS];
 const KEYS: u8 = 3;
+
+thread_local! {
+    /// the window length (ms) of the limiter under test on this thread
+    static D: std::cell::Cell<u64> = const { std::cell::Cell::new(8_000) };
+}
+
+fn d_ms() -> u64 {
+    D.with(|d| d.get())
+}
+
+/// advance alphabet in ms, relative to the window length: d/4, d/2, d-eps, d, d+eps, 2d-eps, 2d, 4d
+fn delta(i: u8) -> u64 {
+    let d = d_ms();
+    [d / 4, d / 2, d - EPS, d, d + EPS, 2 * d - EPS, 2 * d, 4 * d][i as usize]
+}
+const N_DELTAS: usize = 8;
 
 #[derive(Clone, Copy, Debug, PartialEq, Eq)]
 enum Ev {
@@ -30,7 +43,7 @@ fn ev_json(h: &[Ev]) -> Value {
         h.iter()
             .map(|e| match e {
                 Ev::Att(k) => json!(format!("attempt({})", (b'A' + k) as char)),
-                Ev::Adv(i) => json!(format!("advance({}ms)", DELTAS[*i as usize])),
+                Ev::Adv(i) => json!(format!("advance({}ms)", delta(*i))),
             })
             .collect(),
     )
@@ -46,7 +59,7 @@ fn ev_parse(v: &Value) -> Vec<Ev> {
                         Some(Ev::Att(r.as_bytes()[0] - b'A'))
                     } else {
                         let ms: u64 = s.strip_prefix("advance(")?.strip_suffix("ms)")?.parse().ok()?;
-                        Some(Ev::Adv(DELTAS.iter().position(|d| *d == ms)? as u8))
+                        Some(Ev::Adv((0..N_DELTAS as u8).find(|i| delta(*i) == ms)?))
                     }
                 })
                 .collect()
@@ -95,13 +108,13 @@ impl PushMetricExporter for GaugeExporter {
 
 /// Replays a history on a fresh limiter (must be called inside a paused runtime).
 async fn replay(h: &[Ev], limit: usize, provider: Option<&SdkMeterProvider>, gauges: &mut Vec<i64>) -> Vec<Obs> {
-    let mut rl: RateLimiter<u8> = RateLimiter::new(Duration::from_millis(D_MS), limit);
+    let mut rl: RateLimiter<u8> = RateLimiter::new(Duration::from_millis(d_ms()), limit);
     let mut t = 0u64;
     let mut out = Vec::with_capacity(h.len());
     for e in h {
         match e {
             Ev::Adv(i) => {
-                let d = DELTAS[*i as usize];
+                let d = delta(*i);
                 tokio::time::advance(Duration::from_millis(d)).await;
                 t += d;
             }
@@ -135,7 +148,7 @@ fn window_starts(obs: &[Obs], key: u8) -> Vec<usize> {
                 w = Some(o.t);
                 starts.push(i);
             }
-            Some(ws) if o.t >= ws + D_MS => {
+            Some(ws) if o.t >= ws + d_ms() => {
                 w = Some(o.t);
                 starts.push(i);
             }
@@ -150,14 +163,14 @@ struct Stats {
     runs: AtomicU64,
     rejected: AtomicU64,
     deletions: AtomicU64,
-    distinct_decisions: Mutex<std::collections::HashSet<(usize, Vec<bool>)>>,
+    distinct_decisions: Mutex<std::collections::HashSet<(u64, usize, Vec<bool>)>>,
 }
 
 fn viol(rep: &Report, key: &str, h: &[Ev], limit: usize, text: String) {
     rep.violation(Violation {
         key: key.to_string(),
-        text: format!("limit={limit} d={D_MS}ms history={} : {text}", ev_json(h)),
-        replay: json!({"history": ev_json(h), "limit": limit}),
+        text: format!("limit={limit} d={}ms history={} : {text}", d_ms(), ev_json(h)),
+        replay: json!({"history": ev_json(h), "limit": limit, "d_ms": d_ms()}),
         weight: h.len() as u64,
     });
 }
@@ -185,9 +198,9 @@ async fn evaluate(rep: &Report, st: &Stats, h: &[Ev], limit: usize) {
             if !a.ok {
                 continue;
             }
-            let n = mine[i..].iter().filter(|o| o.ok && o.t < a.t + D_MS).count() as u64;
+            let n = mine[i..].iter().filter(|o| o.ok && o.t < a.t + d_ms()).count() as u64;
             if n > 2 * lim {
-                viol(rep, "B1-interval-overfull", h, limit, format!("key {} admitted {n} times in [{}, {}) ms", (b'A' + key) as char, a.t, a.t + D_MS));
+                viol(rep, "B1-interval-overfull", h, limit, format!("key {} admitted {n} times in [{}, {}) ms", (b'A' + key) as char, a.t, a.t + d_ms()));
             }
         }
         // L1: first attempt of a key, or an attempt >= 2d after the key's previous attempt, is admitted
@@ -195,7 +208,7 @@ async fn evaluate(rep: &Report, st: &Stats, h: &[Ev], limit: usize) {
         for o in &mine {
             let must = match prev {
                 None => true,
-                Some(p) => o.t >= p + 2 * D_MS,
+                Some(p) => o.t >= p + 2 * d_ms(),
             };
             if must && !o.ok {
                 viol(rep, "L1-idle-key-refused", h, limit, format!("key {} refused at {} ms although its previous attempt was at {:?} ms", (b'A' + key) as char, o.t, prev));
@@ -249,7 +262,7 @@ async fn evaluate(rep: &Report, st: &Stats, h: &[Ev], limit: usize) {
     st.leaves.fetch_add(1, Ordering::Relaxed);
     let mut d = st.distinct_decisions.lock().unwrap();
     if d.len() < 2_000_000 {
-        d.insert((limit, obs.iter().map(|o| o.ok).collect()));
+        d.insert((d_ms(), limit, obs.iter().map(|o| o.ok).collect()));
     }
 }
 
@@ -270,7 +283,7 @@ async fn evaluate_size(rep: &Report, h: &[Ev], limit: usize, provider: &SdkMeter
         let mut recent = 0;
         for key in 0..KEYS {
             if let Some(last) = obs[..=j].iter().rev().find(|x| x.key == key) {
-                if last.t + 4 * D_MS >= o.t {
+                if last.t + 4 * d_ms() >= o.t {
                     recent += 1;
                 }
             }
@@ -298,7 +311,7 @@ fn enumerate(prefix: &mut Vec<Ev>, depth: usize, nodes: &mut u64, f: &mut dyn Fn
     }
     let last_is_att = matches!(prefix.last(), Some(Ev::Att(_)));
     if last_is_att && prefix.len() + 1 < depth {
-        for i in 0..DELTAS.len() as u8 {
+        for i in 0..N_DELTAS as u8 {
             prefix.push(Ev::Adv(i));
             *nodes += 1;
             enumerate(prefix, depth, nodes, f);
@@ -329,6 +342,7 @@ pub fn run(cli: Cli) -> ! {
     let reads = AtomicU64::new(0);
 
     if let Some(case) = cli.replay.clone() {
+        D.with(|d| d.set(case["d_ms"].as_u64().unwrap_or(8_000)));
         let h = ev_parse(&case["history"]);
         let limit = case["limit"].as_u64().unwrap_or(1) as usize;
         let rt = paused_rt();
@@ -356,7 +370,7 @@ pub fn run(cli: Cli) -> ! {
     let mut jobs2: Vec<Vec<Ev>> = vec![];
     for k in 0..KEYS {
         for k2 in 0..KEYS {
-            for i in 0..DELTAS.len() as u8 {
+            for i in 0..N_DELTAS as u8 {
                 jobs2.push(vec![Ev::Att(k), Ev::Att(k2), Ev::Adv(i)]);
             }
         }
@@ -368,24 +382,30 @@ pub fn run(cli: Cli) -> ! {
     let nodes_total = AtomicU64::new(0);
     let jobs_ref = &jobs;
     let (rep_ref, st_ref) = (&rep, &st);
-    par_for(jobs.len() * limits.len(), |ji| {
-        let job = &jobs_ref[ji / limits.len()];
-        let limit = limits[ji % limits.len()];
-        let rt = paused_rt();
-        rt.block_on(async {
-            // collect leaves first (the enumeration callback is synchronous)
-            let mut leaves: Vec<Vec<Ev>> = vec![];
-            let mut nodes = 0u64;
-            let mut p = job.clone();
-            enumerate(&mut p, depth, &mut nodes, &mut |h| leaves.push(h.to_vec()));
-            if limit == limits[0] {
-                nodes_total.fetch_add(nodes, Ordering::Relaxed);
-            }
-            for h in &leaves {
-                evaluate(rep_ref, st_ref, h, limit).await;
-            }
+    // window lengths: whole seconds, fractional seconds, sub-second (one level shallower for the extra ones)
+    let windows: Vec<(u64, usize)> = vec![(8_000, depth), (1_500, depth - 1), (400, depth - 1)];
+    for (window_ms, depth) in windows.iter().copied() {
+        par_for(jobs.len() * limits.len(), |ji| {
+            D.with(|d| d.set(window_ms));
+            let job = &jobs_ref[ji / limits.len()];
+            let limit = limits[ji % limits.len()];
+            let rt = paused_rt();
+            rt.block_on(async {
+                // collect leaves first (the enumeration callback is synchronous)
+                let mut leaves: Vec<Vec<Ev>> = vec![];
+                let mut nodes = 0u64;
+                let mut p = job.clone();
+                enumerate(&mut p, depth, &mut nodes, &mut |h| leaves.push(h.to_vec()));
+                if limit == limits[0] {
+                    nodes_total.fetch_add(nodes, Ordering::Relaxed);
+                }
+                for h in &leaves {
+                    evaluate(rep_ref, st_ref, h, limit).await;
+                }
+            });
         });
-    });
+    }
+    D.with(|d| d.set(8_000));
 
     // S1 pass, single-threaded
     {
@@ -396,7 +416,7 @@ pub fn run(cli: Cli) -> ! {
             enumerate(&mut vec![], size_depth, &mut nodes, &mut |h| leaves.push(h.to_vec()));
             for h in &leaves {
                 // only histories that can age a key out are interesting for S1: they contain a long advance
-                if !h.iter().any(|e| matches!(e, Ev::Adv(i) if DELTAS[*i as usize] >= 2 * D_MS - EPS)) {
+                if !h.iter().any(|e| matches!(e, Ev::Adv(i) if delta(*i) >= 2 * d_ms() - EPS)) {
                     continue;
                 }
                 for limit in [1usize, 2] {
@@ -426,7 +446,7 @@ pub fn run(cli: Cli) -> ! {
     rep.set("deletion_reruns", json!(st.deletions.load(Ordering::Relaxed)));
     rep.set("exhaustive", json!(true));
     rep.set("rule", json!(format!(
-        "every history of exactly {depth} events over attempt(A|B|C) and advance(d/4,d/2,d-1ms,d,d+1ms,2d-1ms,2d,4d), d=8s, no two consecutive advances, for limit in 1..3; every shorter history is a prefix. A state is the history reaching it (fresh RateLimiter replayed under the paused clock). distinct_nontrivial = distinct (limit, decision vector) pairs observed.")));
+        "every history of exactly {depth} events over attempt(A|B|C) and advance(d/4,d/2,d-1ms,d,d+1ms,2d-1ms,2d,4d), no two consecutive advances, for limit in 1..3 and window length d = 8 s (and d = 1.5 s, 0.4 s one level shallower); every shorter history is a prefix. A state is the history reaching it (fresh RateLimiter replayed under the paused clock). distinct_nontrivial = distinct (limit, decision vector) pairs observed.")));
     rep.sample(json!({"history": ev_json(&[Ev::Att(0), Ev::Att(0), Ev::Adv(2), Ev::Att(1), Ev::Att(0), Ev::Adv(6), Ev::Att(0)]), "limit": 1}));
     rep.sample(json!({"history": ev_json(&jobs[0]), "limit": 2}));
     rep.assume("time is tokio's paused clock; inter-arrival times are the stated alphabet (real-valued time in between is represented by the +-1 ms neighbours of d and 2d)");
